@@ -1,4 +1,5 @@
 import Bpmn.Model.TaskTrace
+import Bpmn.Props.C01
 /-! Invariants of the task-request model `TT` (helper lemmas for Props/C08). -/
 namespace Bpmn.Lemmas.TaskTrace
 open Bpmn.Model.TaskTrace
@@ -47,8 +48,8 @@ theorem inv_step {cfg : Cfg} {s s' : St} (a : Act) (h : Inv cfg s) (hs : step cf
         cases hs
         refine ⟨h.respLen, h.early, fun v hv => good_append _ (h.gotGood v hv),
           fun v hv => good_append _ (h.logGood v hv), ?_, ?_, h.doneIff⟩
-        · intro hw; simp only [St.setPc]; rw [h.waitingFwd hw]
-        · simp only [St.setPc, List.length_append, List.length_cons, List.length_nil]; omega
+        · intro hw; dsimp only; rw [h.waitingFwd hw]
+        · simp only [List.length_append, List.length_cons, List.length_nil]; omega
       · split at hs
         · next hr =>
           cases hs
@@ -59,10 +60,10 @@ theorem inv_step {cfg : Cfg} {s s' : St} (a : Act) (h : Inv cfg s) (hs : step cf
           refine ⟨h.respLen, ?_, ?_, fun v hv => good_append _ (h.logGood v hv), ?_, h.fwdCap, ?_⟩
           · intro _; exact h.early (Or.inl hr.2)
           · intro v hv
-            simp only [St.setPc, Proc.got.injEq] at hv
+            simp only [Proc.got.injEq] at hv
             subst hv
-            exact Or.inr (Or.inr ⟨i, by simp [St.setPc, hl], rfl⟩)
-          · intro hw; simp [St.setPc] at hw
+            exact Or.inr (Or.inr ⟨i, by simp [hl], rfl⟩)
+          · intro hw; simp at hw
           · simp only [St.setPc]
             constructor
             · intro hd; have := h.doneIff.mp hd; rw [hr.2] at this; cases this
@@ -207,5 +208,482 @@ theorem run_append (cfg : Cfg) (s : St) (a b : List Act) : run cfg s (a ++ b) = 
   simp [run, List.foldl_append]
 
 theorem run_cons (cfg : Cfg) (s : St) (a : Act) (b : List Act) : run cfg s (a :: b) = run cfg (stepD cfg s a) b := rfl
+
+
+/-! ## ranks and progress -/
+
+theorem done_stable (cfg : Cfg) (s s' : St) (a : Act) (hs : step cfg s a = some s') (hd : s.done = true) : s'.done = true := by
+  cases a <;> simp only [step] at hs <;> (repeat' split at hs) <;> cases hs <;> simp_all [St.setPc]
+
+theorem caller_rank_mono (cfg : Cfg) (s s' : St) (a : Act) (hs : step cfg s a = some s') (i : Nat) :
+    pcRank (s.pc i) ≤ pcRank (s'.pc i) := by
+  cases a <;> simp only [step] at hs <;> (repeat' split at hs) <;> cases hs <;> simp only [St.setPc] <;>
+    (try split) <;> simp_all [pcRank]
+
+def ownActs (i : Nat) : List Act := [.check i, .send i, .bail i, .ret i]
+
+theorem caller_own_step (cfg : Cfg) (s s' : St) (i : Nat) (a : Act) (ha : a ∈ ownActs i) (hs : step cfg s a = some s') :
+    pcRank (s.pc i) < pcRank (s'.pc i) := by
+  simp only [ownActs, List.mem_cons, List.mem_nil_iff, or_false] at ha
+  rcases ha with rfl | rfl | rfl | rfl <;> simp only [step] at hs <;> (repeat' split at hs) <;> cases hs <;>
+    simp_all [St.setPc, pcRank]
+
+theorem proc_rank_mono (cfg : Cfg) (s s' : St) (a : Act) (hs : step cfg s a = some s') :
+    procRank s.proc ≤ procRank s'.proc := by
+  cases a <;> simp only [step] at hs <;> (repeat' split at hs) <;> cases hs <;> simp_all [St.setPc, procRank]
+
+theorem proc_own_step (cfg : Cfg) (s s' : St) (a : Act) (ha : a ∈ [Act.recv, .fireCtx, .fireTimeout, .respond, .close])
+    (hs : step cfg s a = some s') : procRank s.proc < procRank s'.proc := by
+  simp only [List.mem_cons, List.mem_nil_iff, or_false] at ha
+  rcases ha with rfl | rfl | rfl | rfl | rfl <;> simp only [step] at hs <;> (repeat' split at hs) <;> cases hs <;>
+    simp_all [procRank]
+
+theorem tt_progress (cfg : Cfg) (hok : Ok cfg = true) (s : St) (h : Inv cfg s) (i : Nat) (hn : s.pc i ≠ .returned) :
+    ∃ a ∈ coreActs i, (step cfg s a).isSome = true := by
+  cases hp : s.pc i with
+  | returned => exact absurd hp hn
+  | start => exact ⟨.check i, by simp [coreActs], by simp [step, hp]⟩
+  | sent => exact ⟨.ret i, by simp [coreActs], by simp [step, hp]⟩
+  | passed =>
+    by_cases hroom : s.fwd.length < cfg.forwardCap
+    · exact ⟨.send i, by simp [coreActs], by simp [step, hp, hroom]⟩
+    · unfold Ok at hok
+      split at hok
+      · cases hok
+      · next hm => exact ⟨.bail i, by simp [coreActs], by simp [step, hp, hm, hroom]⟩
+      · next hm =>
+        have hrc : 1 ≤ cfg.responseCap := by simpa using hok
+        by_cases hd : s.done = true
+        · exact ⟨.bail i, by simp [coreActs], by simp [step, hp, hm, hd]⟩
+        · cases hproc : s.proc with
+          | waiting =>
+            cases hf : s.fwd with
+            | nil =>
+              have hc : cfg.forwardCap = 0 := by rw [hf] at hroom; simpa using hroom
+              exact ⟨.send i, by simp [coreActs], by simp [step, hp, hc, hproc]⟩
+            | cons v rest => exact ⟨.recv, by simp [coreActs], by simp [step, hproc, hf]⟩
+          | got v =>
+            have he := (h.early (Or.inr ⟨v, hproc⟩)).2
+            exact ⟨.respond, by simp [coreActs], by
+              have : 0 < cfg.responseCap := by omega
+              simp [step, hproc, he, this]⟩
+          | forwarded => exact ⟨.close, by simp [coreActs], by simp [step, hproc]⟩
+          | closed => exact absurd (h.doneIff.mpr hproc) hd
+
+/-! ## callers that block for ever -/
+
+/-- caller `i` sits behind the `done` check of a blocking send, the buffer is full and `process` will never receive again -/
+def StuckB (cfg : Cfg) (i : Nat) (s : St) : Prop :=
+  cfg.mode = .blocking ∧ s.pc i = .passed ∧ s.proc ≠ .waiting ∧ cfg.forwardCap ≤ s.fwd.length
+
+theorem stuckB_step {cfg : Cfg} {i : Nat} {s s' : St} (a : Act) (h : StuckB cfg i s) (hs : step cfg s a = some s') :
+    StuckB cfg i s' := by
+  obtain ⟨hm, hp, hw, hc⟩ := h
+  cases a <;> simp only [step] at hs <;> (repeat' split at hs) <;> cases hs <;>
+    simp_all [StuckB, St.setPc] <;> (try omega) <;> (try (intro e; subst e; simp_all))
+
+theorem stuckB_run {cfg : Cfg} {i : Nat} (sched : List Act) : ∀ {s : St}, StuckB cfg i s → StuckB cfg i (run cfg s sched) := by
+  induction sched with
+  | nil => intro s h; exact h
+  | cons a rest ih =>
+    intro s h
+    rw [run_cons]
+    apply ih
+    unfold stepD
+    cases hs : step cfg s a with
+    | none => simpa using h
+    | some s' => simpa using stuckB_step a h hs
+
+def StuckD (cfg : Cfg) (i : Nat) (s : St) : Prop :=
+  cfg.mode = .selDone ∧ cfg.responseCap = 0 ∧ s.pc i = .passed ∧ (∃ v, s.proc = .got v) ∧ s.cons = .gone ∧
+    s.done = false ∧ cfg.forwardCap ≤ s.fwd.length
+
+theorem stuckD_step {cfg : Cfg} {i : Nat} {s s' : St} (a : Act) (h : StuckD cfg i s) (hs : step cfg s a = some s') :
+    StuckD cfg i s' := by
+  obtain ⟨hm, hr, hp, ⟨v, hv⟩, hc, hd, hf⟩ := h
+  cases a <;> simp only [step] at hs <;> (repeat' split at hs) <;> cases hs <;>
+    simp_all [StuckD, St.setPc] <;> (try omega) <;> (try (intro e; subst e; simp_all))
+
+theorem stuckD_run {cfg : Cfg} {i : Nat} (sched : List Act) : ∀ {s : St}, StuckD cfg i s → StuckD cfg i (run cfg s sched) := by
+  induction sched with
+  | nil => intro s h; exact h
+  | cons a rest ih =>
+    intro s h
+    rw [run_cons]
+    apply ih
+    unfold stepD
+    cases hs : step cfg s a with
+    | none => simpa using h
+    | some s' => simpa using stuckD_step a h hs
+
+theorem run_fill (cfg : Cfg) : ∀ (n b : Nat) (s : St), s.done = false → s.proc ≠ .waiting → (∀ j, b ≤ j → s.pc j = .start) →
+    s.fwd.length + n ≤ cfg.forwardCap →
+    (run cfg s (fill b n)).fwd.length = s.fwd.length + n ∧ (run cfg s (fill b n)).proc = s.proc ∧
+    (run cfg s (fill b n)).done = false ∧ (run cfg s (fill b n)).cons = s.cons ∧
+    (∀ j, j < b → (run cfg s (fill b n)).pc j = s.pc j) := by
+  intro n
+  induction n with
+  | zero => intro b s hd _ _ _; simp [fill, run, hd]
+  | succ n ih =>
+    intro b s hd hw hst hcap
+    have hb : s.pc b = .start := hst b (Nat.le_refl b)
+    have hlt : s.fwd.length < cfg.forwardCap := by omega
+    have e1 : stepD cfg s (.check b) = s.setPc b .passed := by simp [stepD, step, hb, hd]
+    have e2 : stepD cfg (s.setPc b .passed) (.send b) =
+        { (s.setPc b .passed).setPc b .sent with fwd := s.fwd ++ [b], sendLog := s.sendLog ++ [b] } := by
+      simp [stepD, step, St.setPc, hlt]
+    simp only [fill, run_cons, e1, e2]
+    have := ih (b + 1) { (s.setPc b .passed).setPc b .sent with fwd := s.fwd ++ [b], sendLog := s.sendLog ++ [b] }
+      (by simpa [St.setPc] using hd) (by simpa [St.setPc] using hw)
+      (by intro j hj; simp only [St.setPc]; rw [if_neg (by omega), if_neg (by omega)]; exact hst j (by omega))
+      (by simp; omega)
+    obtain ⟨h1, h2, h3, h4, h5⟩ := this
+    refine ⟨by rw [h1]; simp; omega, by rw [h2]; simp [St.setPc], h3, by rw [h4]; simp [St.setPc], ?_⟩
+    intro j hj
+    rw [h5 j (by omega)]
+    simp only [St.setPc]
+    rw [if_neg (by omega), if_neg (by omega)]
+
+theorem prefixB (cfg : Cfg) :
+    let s1 := run cfg init [.check 0, .check 1, .send 1, .recv]
+    s1.pc 0 = .passed ∧ s1.done = false ∧ s1.proc ≠ .waiting ∧ s1.fwd = [] ∧ (∀ j, 2 ≤ j → s1.pc j = .start) := by
+  by_cases hc : cfg.forwardCap = 0
+  · simp [run, stepD, step, init, St.setPc, hc]
+    intro j hj
+    rw [if_neg (by omega), if_neg (by omega), if_neg (by omega)]
+  · have : 0 < cfg.forwardCap := by omega
+    simp [run, stepD, step, init, St.setPc, this]
+    intro j hj
+    rw [if_neg (by omega), if_neg (by omega), if_neg (by omega)]
+
+theorem prefixD (cfg : Cfg) :
+    let s1 := run cfg init [.cancel, .leave, .fireCtx, .check 0]
+    s1.pc 0 = .passed ∧ s1.done = false ∧ s1.proc = .got .errCtx ∧ s1.cons = .gone ∧ s1.fwd = [] ∧
+      (∀ j, 1 ≤ j → s1.pc j = .start) := by
+  simp [run, stepD, step, init, St.setPc]
+  intro j hj
+  omega
+
+theorem witnessB_stuck (cfg : Cfg) (hm : cfg.mode = .blocking) :
+    StuckB cfg 0 (run cfg init (witnessBlocking cfg.forwardCap)) := by
+  unfold witnessBlocking
+  rw [run_append]
+  obtain ⟨h0, hd, hw, hf, hst⟩ := prefixB cfg
+  have := run_fill cfg cfg.forwardCap 2 _ hd hw hst (by rw [hf]; simp)
+  obtain ⟨h1, h2, _, _, h5⟩ := this
+  refine ⟨hm, ?_, ?_, ?_⟩
+  · rw [h5 0 (by omega)]; exact h0
+  · rw [h2]; exact hw
+  · rw [h1]; omega
+
+theorem witnessD_stuck (cfg : Cfg) (hm : cfg.mode = .selDone) (hr : cfg.responseCap = 0) :
+    StuckD cfg 0 (run cfg init (witnessNoReader cfg.forwardCap)) := by
+  unfold witnessNoReader
+  rw [run_append]
+  obtain ⟨h0, hd, hp, hc, hf, hst⟩ := prefixD cfg
+  have := run_fill cfg cfg.forwardCap 1 _ hd (by rw [hp]; simp) hst (by rw [hf]; simp)
+  obtain ⟨h1, h2, h3, h4, h5⟩ := this
+  refine ⟨hm, hr, ?_, ⟨.errCtx, by rw [h2]; exact hp⟩, by rw [h4]; exact hc, h3, by rw [h1]; omega⟩
+  rw [h5 0 (by omega)]; exact h0
+
+/-! ## a caller that is let run returns -/
+
+theorem returned_stable (cfg : Cfg) (s : St) (a : Act) (i : Nat) (h : s.pc i = .returned) : (stepD cfg s a).pc i = .returned := by
+  unfold stepD
+  cases hs : step cfg s a with
+  | none => simpa using h
+  | some s' =>
+    simp only [Option.getD_some]
+    cases a <;> simp only [step] at hs <;> (repeat' split at hs) <;> cases hs <;> simp only [St.setPc] <;>
+      (try split) <;> simp_all
+
+theorem returned_run (cfg : Cfg) (i : Nat) (sched : List Act) : ∀ (s : St), s.pc i = .returned → (run cfg s sched).pc i = .returned := by
+  induction sched with
+  | nil => intro s h; exact h
+  | cons a rest ih => intro s h; rw [run_cons]; exact ih _ (returned_stable cfg s a i h)
+
+/-- once `done` is closed, caller `i` returns by its own next three attempts -/
+theorem finish_when_done (cfg : Cfg) (hmode : cfg.mode ≠ .blocking) (s : St) (i : Nat) (hd : s.done = true) (hp : s.pc i ≠ .start)
+    (hsel : cfg.mode = .selDefault → ¬ s.pc i = .passed) :
+    (run cfg s [.send i, .bail i, .ret i]).pc i = .returned := by
+  cases hpc : s.pc i with
+  | start => exact absurd hpc hp
+  | returned => exact returned_run cfg i _ s hpc
+  | sent => simp [run, stepD, step, hpc, St.setPc]
+  | passed =>
+    cases hm : cfg.mode with
+    | blocking => exact absurd hm hmode
+    | selDefault => exact absurd hpc (hsel hm)
+    | selDone =>
+      by_cases hroom : s.fwd.length < cfg.forwardCap
+      · simp [run, stepD, step, hpc, St.setPc, hroom]
+      · by_cases hr : cfg.forwardCap = 0 ∧ s.proc = .waiting
+        · simp [run, stepD, step, hpc, St.setPc, hr]
+        · simp [run, stepD, step, hpc, St.setPc, hroom, hr, hm, hd]
+
+theorem proc_acts_keep_pc (cfg : Cfg) (s : St) (a : Act) (ha : a = .recv ∨ a = .respond ∨ a = .close) :
+    (stepD cfg s a).pc = s.pc := by
+  unfold stepD
+  cases hs : step cfg s a with
+  | none => rfl
+  | some s' =>
+    simp only [Option.getD_some]
+    rcases ha with rfl | rfl | rfl <;> simp only [step] at hs <;> (repeat' split at hs) <;> cases hs <;> rfl
+
+theorem proc_run_keep_pc (cfg : Cfg) (s : St) : (run cfg s [.recv, .respond, .close]).pc = s.pc := by
+  simp only [run, List.foldl_cons, List.foldl_nil]
+  rw [proc_acts_keep_pc _ _ _ (Or.inr (Or.inr rfl)), proc_acts_keep_pc _ _ _ (Or.inr (Or.inl rfl)),
+    proc_acts_keep_pc _ _ _ (Or.inl rfl)]
+
+theorem proc_finishes (cfg : Cfg) (hrc : 1 ≤ cfg.responseCap) (s : St) (h : Inv cfg s)
+    (hw : s.proc = .waiting → s.fwd ≠ []) : (run cfg s [.recv, .respond, .close]).done = true := by
+  have hpos : 0 < cfg.responseCap := by omega
+  cases hp : s.proc with
+  | waiting =>
+    have he := (h.early (Or.inl hp)).2
+    cases hf : s.fwd with
+    | nil => exact absurd hf (hw hp)
+    | cons v rest => simp [run, stepD, step, hp, hf, he, hpos]
+  | got v =>
+    have he := (h.early (Or.inr ⟨v, hp⟩)).2
+    simp [run, stepD, step, hp, he, hpos]
+  | forwarded => simp [run, stepD, step, hp]
+  | closed => simpa [run, stepD, step, hp] using h.doneIff.mpr hp
+
+theorem after_send_bail (cfg : Cfg) (hok : Ok cfg = true) (s : St) (i : Nat) (hp : s.pc i ≠ .start) :
+    (run cfg s [.send i, .bail i]).pc i = .returned ∨ (run cfg s [.send i, .bail i]).pc i = .sent ∨
+    (run cfg s [.send i, .bail i] = s ∧ s.pc i = .passed ∧ cfg.mode = .selDone ∧ ¬ s.fwd.length < cfg.forwardCap ∧
+      ¬ (cfg.forwardCap = 0 ∧ s.proc = .waiting) ∧ s.done = false) := by
+  cases hpc : s.pc i with
+  | start => exact absurd hpc hp
+  | returned => exact Or.inl (returned_run cfg i _ s hpc)
+  | sent => right; left; simp [run, stepD, step, hpc]
+  | passed =>
+    by_cases hroom : s.fwd.length < cfg.forwardCap
+    · right; left; simp [run, stepD, step, hpc, St.setPc, hroom]
+    · by_cases hr : cfg.forwardCap = 0 ∧ s.proc = .waiting
+      · right; left; simp [run, stepD, step, hpc, St.setPc, hr]
+      · unfold Ok at hok
+        split at hok
+        · cases hok
+        · next hm => left; simp [run, stepD, step, hpc, St.setPc, hroom, hr, hm]
+        · next hm =>
+          by_cases hd : s.done = true
+          · left; simp [run, stepD, step, hpc, St.setPc, hroom, hr, hm, hd]
+          · right; right
+            refine ⟨?_, rfl, hm, hroom, hr, by simpa using hd⟩
+            simp [run, stepD, step, hpc, hroom, hr, hm, hd]
+
+theorem check_leaves_start (cfg : Cfg) (s : St) (i : Nat) : (stepD cfg s (.check i)).pc i ≠ .start := by
+  cases hpc : s.pc i <;> simp [stepD, step, hpc, St.setPc]
+  split <;> simp
+
+theorem tt_drive (cfg : Cfg) (hok : Ok cfg = true) (s : St) (h : Inv cfg s) (i : Nat) :
+    (run cfg s (drive i)).pc i = .returned := by
+  have e : drive i = [.check i] ++ ([.send i, .bail i] ++ ([.recv, .respond, .close] ++ [.send i, .bail i, .ret i])) := rfl
+  rw [e, run_append, run_append, run_append]
+  have h1 : Inv cfg (run cfg s [.check i]) := inv_run _ h
+  have hp1 : (run cfg s [.check i]).pc i ≠ .start := check_leaves_start cfg s i
+  generalize run cfg s [.check i] = s1 at h1 hp1
+  have h2 : Inv cfg (run cfg s1 [.send i, .bail i]) := inv_run _ h1
+  rcases after_send_bail cfg hok s1 i hp1 with hr | hs | ⟨heq, hpa, hm, hroom, hrdv, hd⟩
+  · exact returned_run cfg i _ _ (returned_run cfg i _ _ hr)
+  · generalize run cfg s1 [.send i, .bail i] = s2 at h2 hs
+    have : (run cfg s2 [.recv, .respond, .close]).pc i = .sent := by rw [proc_run_keep_pc]; exact hs
+    generalize run cfg s2 [.recv, .respond, .close] = s3 at this
+    simp [run, stepD, step, this, St.setPc]
+  · rw [heq]
+    have hrc : 1 ≤ cfg.responseCap := by
+      unfold Ok at hok; rw [hm] at hok; simpa using hok
+    have hdone := proc_finishes cfg hrc s1 h1 (by
+      intro hw hf
+      have : cfg.forwardCap ≠ 0 := fun hc => hrdv ⟨hc, hw⟩
+      rw [hf] at hroom; simp at hroom; omega)
+    have hpc3 : (run cfg s1 [.recv, .respond, .close]).pc i = .passed := by rw [proc_run_keep_pc]; exact hpa
+    exact finish_when_done cfg (by rw [hm]; simp) _ i hdone (by rw [hpc3]; simp) (by rw [hm]; simp)
+
+/-! ## retry counter -/
+
+section
+open Bpmn.Model
+
+theorem requests_cons_request (evs : List Ev) : requests (.request :: evs) = requests evs + 1 := by
+  simp [requests, List.countP_cons, Ev.isRequest]
+
+theorem requests_cons_other (e : Ev) (evs : List Ev) (h : e.isRequest = false) : requests (e :: evs) = requests evs := by
+  simp [requests, h]
+
+theorem requests_append (a b : List Ev) : requests (a ++ b) = requests a + requests b := by
+  simp [requests]
+
+/-- one retry answer: what the error switch does with the counter -/
+theorem errSwitch_retry (td : Int) (r : Option Retry) (n : Int) :
+    errSwitch td r (.mode 1 n) =
+      if n = -1 ∨ n > attemptsOf r then (.rerequest, some ⟨n, attemptsOf r + 1⟩) else (.endToken, some ⟨n, attemptsOf r⟩) := by
+  cases r with
+  | none =>
+    by_cases h1 : n = -1 <;> by_cases h2 : n > 0 <;>
+      simp [errSwitch, Retry.reset, Retry.isContinue, Retry.stepR, retrySentinel, attemptsOf, h1, h2]
+  | some x =>
+    by_cases h1 : n = -1 <;> by_cases h2 : n > x.attempts <;>
+      simp [errSwitch, Retry.reset, Retry.isContinue, Retry.stepR, retrySentinel, attemptsOf, h1, h2]
+
+theorem retry_exact_aux (td n : Int) (hn : 0 ≤ n) : ∀ (f : Nat) (r : Option Retry), 0 ≤ attemptsOf r →
+    requests (tokenRun td r (failThenOk n f)).1 = 1 + min (n - attemptsOf r).toNat f := by
+  intro f
+  induction f with
+  | zero => intro r _; simp [failThenOk, tokenRun, onAnswer, requests, List.countP_cons, Ev.isRequest]
+  | succ f ih =>
+    intro r ha
+    have e : failThenOk n (f + 1) = .err (.mode 1 n) :: failThenOk n f := by
+      simp [failThenOk, List.replicate_succ]
+    rw [e]
+    simp only [tokenRun, onAnswer, errSwitch_retry]
+    have hne : ¬ n = -1 := by omega
+    by_cases hgt : n > attemptsOf r
+    · rw [if_pos (Or.inr hgt)]
+      simp only [List.cons_append, List.nil_append, requests_cons_request]
+      rw [requests_cons_other _ _ rfl]
+      have := ih (some ⟨n, attemptsOf r + 1⟩) (by show 0 ≤ attemptsOf r + 1; omega)
+      rw [this]
+      show 1 + min (n - (attemptsOf r + 1)).toNat f + 1 = 1 + min (n - attemptsOf r).toNat (f + 1)
+      omega
+    · rw [if_neg (by intro h; rcases h with h | h; exact hne h; exact hgt h)]
+      simp only [List.cons_append, List.nil_append, requests_cons_request]
+      rw [requests_cons_other _ _ rfl, requests_cons_other _ _ rfl]
+      simp [requests]
+      omega
+
+theorem retry_unbounded_aux (td : Int) : ∀ (f : Nat) (r : Option Retry),
+    requests (tokenRun td r (failThenOk (-1) f)).1 = 1 + f := by
+  intro f
+  induction f with
+  | zero => intro r; simp [failThenOk, tokenRun, onAnswer, requests, List.countP_cons, Ev.isRequest]
+  | succ f ih =>
+    intro r
+    have e : failThenOk (-1) (f + 1) = .err (.mode 1 (-1)) :: failThenOk (-1) f := by
+      simp [failThenOk, List.replicate_succ]
+    rw [e]
+    simp only [tokenRun, onAnswer, errSwitch_retry]
+    simp only [true_or, if_true]
+    simp only [List.cons_append, List.nil_append, requests_cons_request]
+    rw [requests_cons_other _ _ rfl, ih]
+    omega
+
+theorem retry_bound_aux (td n : Int) : ∀ (answers : List Ans) (r : Option Retry), 0 ≤ attemptsOf r →
+    BoundedBy n answers → requests (tokenRun td r answers).1 ≤ 1 + (n - attemptsOf r).toNat := by
+  intro answers
+  induction answers with
+  | nil => intro r _ _; simp [tokenRun, requests, List.countP_cons, Ev.isRequest]
+  | cons a rest ih =>
+    intro r ha hb
+    have hrest : BoundedBy n rest := fun k hk => hb k (List.mem_cons_of_mem _ hk)
+    cases a with
+    | ok => simp [tokenRun, onAnswer, requests, List.countP_cons, Ev.isRequest]
+    | err h =>
+      cases h with
+      | none => simp [tokenRun, onAnswer, errSwitch, requests, List.countP_cons, Ev.isRequest]
+      | mode m k =>
+        by_cases hm : m = 1
+        · subst hm
+          obtain ⟨hk1, hk2⟩ := hb k (List.mem_cons_self ..)
+          simp only [tokenRun, onAnswer, errSwitch_retry]
+          by_cases hgt : k > attemptsOf r
+          · rw [if_pos (Or.inr hgt)]
+            simp only [List.cons_append, List.nil_append, requests_cons_request]
+            rw [requests_cons_other _ _ rfl]
+            have := ih (some ⟨k, attemptsOf r + 1⟩) (by show 0 ≤ attemptsOf r + 1; omega) hrest
+            have e : attemptsOf (some ⟨k, attemptsOf r + 1⟩) = attemptsOf r + 1 := rfl
+            rw [e] at this
+            omega
+          · rw [if_neg (by intro h; rcases h with h | h; exact hk1 h; exact hgt h)]
+            simp [requests, List.countP_cons, Ev.isRequest]
+        · by_cases h3 : m = 3
+          · subst h3; simp [tokenRun, onAnswer, errSwitch, requests, List.countP_cons, Ev.isRequest]
+          · have : errSwitch td r (.mode m k) = (.continue_, r) := by
+              unfold errSwitch
+              split <;> simp_all
+            simp [tokenRun, onAnswer, this, requests, List.countP_cons, Ev.isRequest]
+
+/-! ## declared names -/
+
+open Bpmn.Model.Engine
+
+theorem get_set_eq (vs : Vars) (k : String) (v : Int) : (vs.set k v).get k = some v := by
+  unfold Vars.set Vars.get
+  by_cases hany : vs.any (·.1 == k) = true
+  · rw [if_pos hany]
+    induction vs with
+    | nil => simp at hany
+    | cons x xs ih =>
+      by_cases hx : x.1 = k
+      · simp [hx]
+      · have hx' : (x.1 == k) = false := by simpa using hx
+        simp only [List.map_cons, hx', Bool.false_eq_true, if_false, List.find?_cons]
+        apply ih
+        simpa [List.any_cons, hx'] using hany
+  · rw [if_neg hany]
+    have : vs.find? (fun x => x.1 == k) = none := by
+      rw [List.find?_eq_none]
+      intro x hx
+      simp only [List.any_eq_true, not_exists, not_and] at hany
+      exact hany x hx
+    simp [List.find?_append, this]
+
+theorem restrictTo_get (supplied : List (String × Int)) (k : String) : ∀ (declared : List String) (store : Vars),
+    (restrictTo declared Vars.set store supplied).get k =
+      if k ∈ declared then (supplied? supplied k).orElse (fun _ => store.get k) else store.get k := by
+  intro declared
+  induction declared with
+  | nil => intro store; simp [restrictTo]
+  | cons nm rest ih =>
+    intro store
+    have unfold1 : restrictTo (nm :: rest) Vars.set store supplied =
+        restrictTo rest Vars.set (match supplied.find? (·.1 == nm) with
+          | some (_, v) => store.set nm v
+          | none => store) supplied := by
+      unfold restrictTo
+      rw [List.foldl_cons]
+      congr 1
+      cases supplied.find? (fun x => x.1 == nm) with
+      | none => rfl
+      | some q => rfl
+    rw [unfold1, ih]
+    by_cases hk : nm = k
+    · subst hk
+      simp only [List.mem_cons, true_or, if_true]
+      cases hf : supplied.find? (fun x => x.1 == nm) with
+      | none => simp [supplied?, hf]
+      | some q => simp [supplied?, hf, get_set_eq]
+    · have hstep : Vars.get (match supplied.find? (·.1 == nm) with
+          | some (_, v) => store.set nm v
+          | none => store) k = store.get k := by
+        cases supplied.find? (fun x => x.1 == nm) with
+        | none => rfl
+        | some q => exact Bpmn.Props.C01.get_set_ne store nm k q.2 hk
+      have hmem : (k ∈ nm :: rest) ↔ k ∈ rest := by
+        simp only [List.mem_cons]
+        constructor
+        · intro h; rcases h with h | h; exact absurd h.symm hk; exact h
+        · intro h; exact Or.inr h
+      rw [hstep]
+      by_cases hr : k ∈ rest
+      · rw [if_pos hr, if_pos (hmem.mpr hr)]
+      · rw [if_neg hr, if_neg (fun h => hr (hmem.mp h))]
+
+theorem applyDeclared_eq (n : Node) (vars : Vars) (results : List (String × Int)) :
+    applyDeclared n vars results = if n.hasResults then restrictTo n.results Vars.set vars results else vars := by
+  unfold applyDeclared restrictTo
+  cases n.hasResults
+  · simp
+  · simp only [Bool.not_true, Bool.false_eq_true, if_false, if_true]
+    congr 1
+    funext vs name
+    cases results.find? (fun x => x.1 == name) with
+    | none => rfl
+    | some q => rfl
+
+
+end
 
 end Bpmn.Lemmas.TaskTrace
